@@ -352,16 +352,16 @@ def make_case(rng, n=None, target=None):
             schema = {"kind": "call", "mode": rng.choice(["exact", "exact", "wrong", "typeconf", "partial"])}
     if sps and schema["kind"] != "str" and rng.random() < 0.05:
         # F-16f: a path that leads out of the target ('..', absolute) — a few only, and only where the
-        # offending text starts the path (a '..' in the middle of a path is not in the universe)
+        # offending text starts the path or climbs out from the middle ('d/../../y')
         i = rng.randrange(len(sps))
         mode = rng.choice(["call", "abs-auto", "field"])
         if mode == "call":
-            esc = rng.choice(["../y", "..", ESC_ROOT + "%d/x" % rng.randrange(10 ** 9), "../../z"])
+            esc = rng.choice(["../y", "..", ESC_ROOT + "%d/x" % rng.randrange(10 ** 9), "../../z", "d/../../y", "p/q/../../../w/x"])
             table = [rng.choice(CALL_POOL) for _ in sps]
             table[i] = esc
             path = {"kind": "call", "table": table}
         else:
-            esc = ESC_ROOT + "%d/x" % rng.randrange(10 ** 9) if mode == "abs-auto" else rng.choice(["../y", "..", "../../z"])
+            esc = ESC_ROOT + "%d/x" % rng.randrange(10 ** 9) if mode == "abs-auto" else rng.choice(["../y", "..", "../../z", "d/../../y", "p/q/../../../w/x"])
             sp = dict(sps[i])
             sp["a"] = esc
             if tagged(sp) not in [tagged(o) for o in sps]:
